@@ -6,6 +6,8 @@ package main
 // /repo/verif_hooks.go (VerifNewFixedCallStack / VerifNewAutoCallStack / VerifNewRegistry) and, line by line, on the
 // Lean Model (exact) and Spec (List with capacity / List with limit).
 // Part 2 (c12_prog.go): whole Lua programs under a grid of lua.Options (Impl vs Impl, judged by the Lean engine).
+// Part 3 (c12_goapi.go): host programs through the Go API (NewThread/Resume/Status/PCall/CallByParam/Close) under the
+// whole grid, same request line and the same verdict rules as part 2.
 
 import (
 	"encoding/hex"
@@ -520,9 +522,9 @@ func execC12(ops []Op) []string {
 }
 
 func runC12(run *Run) {
-	nStack, nReg, nProg, maxOps, nCfg := 2500, 2500, 160, 60, 10
+	nStack, nReg, nProg, maxOps, nCfg, goReps := 2500, 2500, 160, 60, 10, 1
 	if run.Tier == "thorough" {
-		nStack, nReg, nProg, maxOps, nCfg = 60000, 60000, 4000, 140, 24
+		nStack, nReg, nProg, maxOps, nCfg, goReps = 60000, 60000, 4000, 140, 24, 6
 	}
 	run.Rule = "(1) random histories on the REAL fixedCallFrameStack / autoGrowingCallFrameStack / registry via the verif hooks " +
 		"(sizes 0,1,2,7,8,9,15,16,17,…,64; growBy/maxSize around the size; state-aware arguments at segment, capacity and growth boundaries; " +
@@ -533,13 +535,21 @@ func runC12(run *Run) {
 		"the limits, each run under the reference configuration and sampled lua.Options (CallStackSize 1,2,7,8,9,16,256 × MinimizeStackMemory × " +
 		"RegistrySize 128,129,256,5120 × RegistryMaxSize 0,size,size+1,4·size × RegistryGrowStep 1,31,32,33 × context attached or not, plus values " +
 		"NewState normalises): traces equal entry by entry for equal effective limits, equal up to the first limit error otherwise, limit errors are " +
-		"ordinary Lua errors, and a probe program gives the same trace afterwards as in a fresh state. distinct = distinct op-kind skeletons (≥ 3 ops)."
+		"ordinary Lua errors, and a probe program gives the same trace afterwards as in a fresh state. (3) host programs through the GO API " +
+		"(test: bounded-exhaustive): for each of 4 places (top level, Go function called from Lua at depth K, the same inside a Lua coroutine, body of a " +
+		"host-made thread) × EVERY configuration of the grid under (2) (+ 8 normalised ones), 24 thread bodies (Lua and Go functions: return, yield, " +
+		"tail yield, errors of every kind, deep recursion across the segment boundary, nested Lua and host coroutines, many values, limit errors) " +
+		"driven through NewThread / Resume (first, after yield, after the end, after death by error, of the running and of the normal thread) / " +
+		"Status / CallByParam and PCall after the death / new threads in the reused parent / Close of parent and live, finished and failed threads " +
+		"in three orders; every step under recover; judged by the same rules as (2) against the reference configuration, and no Go panic may leave " +
+		"an entry point. distinct = distinct op-kind skeletons (≥ 3 ops)."
 	run.Assume = []string{
 		"frames are observed through (Pc, Idx) only; pointers returned by Pop/Last/At are read at once (aliasing with later pushes is not modelled)",
 		"segmentPool: a segment obtained from the pool has unknown content; slots not written since are compared as `stale` (any frame accepted)",
 		"arguments of SetSp/At and registry indices/sizes are naturals (negative values are outside the model); CallStackSize ≤ 8·65536 (uint16 segIdx)",
 		"program traces: error texts are compared verbatim except that any message containing `stack overflow` / `registry overflow` is the class E:SO / E:RO",
 		"the effective limits used to group configurations come from the Lean Spec (callLimit, regLimit); the 128-slot minimum of RegistrySize is NewState's",
+		"Go API part: a dead thread is resumed again only while the previous refused Resume left its call depth unchanged (on this tree Resume pushes a frame on a finished thread before it looks at Dead: reported finding, fixes/C12-resume-refuses-before-push.diff); the main thread is never the target of Resume; closed states are not used again",
 	}
 	root := NewRng(uint64(run.Seed))
 	var cases []Case
@@ -560,6 +570,14 @@ func runC12(run *Run) {
 		cases = append(cases, Case{Idx: 2000000 + i, Ops: ops})
 	}
 	runCases(run, cases, execC12, classifyTagged)
+	// part 3 (c12_goapi.go): host programs through the Go API, every place × the whole configuration grid
+	cases = nil
+	for i, ops := range genC12GoAPICases(root.Fork(3000000), 64, goReps) {
+		pl, _ := strconv.Atoi(ops[0].Args[2])
+		run.Hist["goapi.place."+c12GoPlaces[pl]] += len(ops) - 1
+		cases = append(cases, Case{Idx: 3000000 + i, Ops: ops})
+	}
+	runCases(run, cases, execC12, classifyTagged)
 	c12Stats.Lock()
 	stats := map[string]int{}
 	for k, v := range c12Stats.m {
@@ -567,5 +585,6 @@ func runC12(run *Run) {
 	}
 	c12Stats.Unlock()
 	run.Extra["limit_events"] = stats
+	run.Extra["goapi"] = fmt.Sprintf("%d places × (%d grid + %d normalised configurations) × %d parameter draw(s); %d thread bodies per run", len(c12GoPlaces), len(c12FullGrid()), len(c12GoExtraCfgs), goReps, len(c12GoBodies))
 	run.Extra["configuration_grid"] = fmt.Sprintf("%d configurations in the full product; %d sampled per program case (reference + random + equivalent-limit partners)", len(c12FullGrid()), nCfg)
 }
